@@ -455,6 +455,14 @@ def jwkp_unit(prop, fn):
              replace=["jwt_strcmp/contract_exact_jwt_strcmp"], stubs=JWKP_STUBS, defines=["VERIF_B64_TRACK", "VERIF_ALLOC_RECORD_FAIL"], flags=[],
              expect=[c + "\\.postcondition\\.2", c + "\\.postcondition\\.4"], timeout=900, replay={"driver": "replay/r_C07.c"})
 P["C07"] = {"property": "C07", "level": "proof", "units": [jwkp_unit("C07", f) for f in ("openssl_process_rsa", "openssl_process_ec", "openssl_process_eddsa")]}
+JWKS_STUBS = LIBC + ["stubs/alloc.c", "stubs/jansson.c", "stubs/b64_shape.c"]
+P["C08"] = {"property": "C08", "level": "proof", "units": [
+    U("C08.process_octet", "process_octet (libjwt/jwks.c)", JWKS_C, "contracts/jwks_c.h", "json_t *j; jwk_item_t *it; process_octet(j, it);",
+      "process_octet/contract_C08_process_octet", stubs=JWKS_STUBS, defines=["VERIF_TU_JWKS", "VERIF_B64_TRACK", "B64_DEC_MAX=0x1000000"], flags=[],
+      bound_note="oct key material of at most 16 MiB (item->bits = len * 8 is computed in int)",
+      expect=["contract_C08_process_octet\\.postcondition\\.4"]),
+] + [dict(jwkp_unit("C07", f), name="C08." + f) for f in ("openssl_process_rsa", "openssl_process_ec", "openssl_process_eddsa")]}
+
 
 # ============================ parsing units =================================
 VERIFY_JSON_STUBS = LIBC + ["stubs/time.c", "stubs/jansson.c", "stubs/alloc.c"]
@@ -511,6 +519,22 @@ P["C03"]["units"].append(gen_top())
 P["C14"]["units"].append(gen_top())
 for _p in ("C01", "C02", "C03", "C04", "C06", "C09", "C14"):
     P[_p]["units"].append(top(_p))
+
+for _f in ("openssl_process_rsa", "openssl_process_ec", "openssl_process_eddsa"):
+    P["C07"]["units"].append(U("C07.%s.shape" % _f, "%s (libjwt/openssl/jwk-parse.c), as called through jwt_ops" % _f, JWKP, "contracts/jwks_c.h",
+        "json_t *j = malloc(sizeof(json_t)); jwk_item_t *it = malloc(sizeof(*it)); __CPROVER_assume(j != NULL && it != NULL); j->type = JSON_OBJECT; j->refcount = 1; j->tracked = NULL; g_json_key = NULL; %s(j, it);" % _f,
+        "%s/contract_shape_process_jwk" % _f, replace=["jwt_strcmp/contract_exact_jwt_strcmp"], stubs=JWKP_STUBS,
+        defines=["VERIF_ALLOC_RECORD_FAIL"], flags=[], expect=["contract_shape_process_jwk\\.postcondition\\.1"], timeout=900))
+P["C07"]["units"].append(
+    U("C07.jwk_process_one", "jwk_process_one (libjwt/jwks.c)", JWKS_C, "contracts/jwks_c.h",
+      "JWKS_TAKE_ADDRESSES; jwk_set_t *s; json_t *j; jwk_process_one(s, j);", "jwk_process_one/contract_C07_jwk_process_one",
+      replace=["jwt_strcmp/contract_exact_jwt_strcmp", "process_octet/contract_C08_process_octet", "jwk_process_values/contract_shape_jwk_process_values"],
+      stubs=LIBC + ["stubs/alloc.c", "stubs/jansson.c"], defines=["VERIF_TU_JWKS", "VERIF_ALLOC_RECORD_FAIL"], flags=[], object_bits=10,
+      expect=["contract_C07_jwk_process_one\\.postcondition\\.3", "contract_shape_process_jwk\\.precondition"], timeout=900,
+      replay={"driver": "replay/r_C17_jwks.c"}))
+P["C17"]["units"].append(dict(P["C07"]["units"][-1], name="C17.jwk_process_one"))
+P["C09"]["units"] += [dict(jwkp_unit("C07", "openssl_process_rsa"), name="C09.openssl_process_rsa"),
+                      dict(P["C08"]["units"][0], name="C09.process_octet")]
 
 # ---------------------------------------------------------------------------
 def main():
